@@ -153,8 +153,10 @@ func judgeC01(rc *RunCtx, cr *CheckRun, main bool) {
 		return
 	case "fail", "panic":
 	default:
-		if w.TB.failed && cr.Verdict != "onlygen" {
-			rc.V(viol("C01.R5", "failed-no-verdict", "TB failed without a recognisable verdict: %q", cr.VerdictText))
+		if cr.Verdict == "other" {
+			rc.V(viol("harness", "unrecognised-report", "Check reported an error in words this harness does not know: %q", oneLine(cr.VerdictText, 200)))
+		} else if w.TB.failed && cr.Verdict != "onlygen" {
+			rc.V(viol("C01.R5", "failed-no-verdict", "TB failed without any report"))
 		}
 		return
 	}
@@ -207,7 +209,9 @@ func judgeC01(rc *RunCtx, cr *CheckRun, main bool) {
 	// R2: logged draws are exactly the values the final invocation received
 	if !cr.Flags.Debug {
 		logged := cr.LoggedDraws(cr.VerdictSeq)
-		if !sameDraws(logged, F.Draws) {
+		if len(logged) == 0 && cr.drawLogInOtherWords(cr.VerdictSeq, 0, F.Draws) {
+			rc.V(viol("harness", "draw-log-format-unknown", "the draws of the final test case are logged, but not as '[rapid] draw <label>: <value>' lines"))
+		} else if !sameDraws(logged, F.Draws) {
 			rc.V(viol("C01.R2", "draw-log-mismatch", "logged draws {%s} differ from the values the final invocation received {%s}", drawsStr(logged), drawsStr(F.Draws)))
 		}
 	}
@@ -242,7 +246,9 @@ func judgeVerboseDrawLogs(rc *RunCtx, cr *CheckRun) {
 				}
 			}
 		}
-		if !sameDraws(logged, inv.Draws) {
+		if len(logged) == 0 && cr.drawLogInOtherWords(inv.SeqBegin, inv.SeqEnd, inv.Draws) {
+			rc.V(viol("harness", "draw-log-format-unknown", "the draws of invocation %d are logged, but not as '[rapid] draw <label>: <value>' lines", inv.Idx))
+		} else if !sameDraws(logged, inv.Draws) {
 			rc.V(viol("C11.R3", "verbose-draw-log-mismatch", "invocation %d (%s): logged {%s} vs received {%s}", inv.Idx, inv.Phase, drawsStr(logged), drawsStr(inv.Draws)))
 			return
 		}
